@@ -4,6 +4,9 @@ import (
 	"encoding/json"
 	"fmt"
 	"math/rand"
+	"os"
+	"strconv"
+	"strings"
 
 	"github.com/aclements/go-moremath/graph"
 	"github.com/aclements/go-moremath/graph/graphalg"
@@ -23,6 +26,8 @@ import (
 //	8  SubgraphRemove(G, Nodes, Edges)
 //	9  DotString(S)                        strings are byte lists
 //	10 Dot{Name, Label, NodeAttrs, EdgeAttrs}.Sprint(G); HasL/HasN/HasE = the func is non-nil
+//	11 a history Steps (operations 2-8, 10; their G is ignored) on ONE graph object built from G
+//	   (Bi: the object is MakeBiGraph(G), built once); no copy is made between the calls
 type c18Attr struct {
 	N []int `json:"n"`           // attribute name
 	K int   `json:"k"`           // 0 string S, 1 int I, 2 DotLiteral S, 3 bool (unsupported: panics), 4 uint I
@@ -47,6 +52,18 @@ type c18Case struct {
 	Labels [][]int       `json:"labels,omitempty"`
 	NAttrs [][]c18Attr   `json:"nattrs,omitempty"`
 	EAttrs [][][]c18Attr `json:"eattrs,omitempty"`
+	Bi     bool          `json:"bi,omitempty"`
+	Steps  []c18Case     `json:"steps,omitempty"`
+
+	obj graph.Graph // op 11: the shared object every step works on (nil: a graph of its own, IntGraph(G))
+}
+
+// the graph object a call receives
+func (c *c18Case) graph() graph.Graph {
+	if c.obj != nil {
+		return c.obj
+	}
+	return graph.IntGraph(c.G)
 }
 
 const c18MaxID = 1 << 22
@@ -77,14 +94,68 @@ func c18Run(raw []byte) (*Line, error) {
 		return c18RunDotString(&c, l)
 	case 10:
 		return c18RunSprint(&c, l)
+	case 11:
+		return c18RunHist(&c, l)
 	}
 	return nil, fmt.Errorf("bad op %d", c.Op)
 }
 
+// ---------------------------------------------------------------- op 11: a history on one graph object
+func c18RunHist(c *c18Case, l *Line) (*Line, error) {
+	if err := c18ValidGraph(c.G); err != nil {
+		return nil, err
+	}
+	if len(c.Steps) == 0 || len(c.Steps) > 64 {
+		return nil, fmt.Errorf("a history has 1..64 steps")
+	}
+	var obj graph.Graph = graph.IntGraph(c.G)
+	if c.Bi {
+		obj = graph.MakeBiGraph(obj)
+	}
+	l.I(len(c.Steps))
+	for i := range c.Steps {
+		st := c.Steps[i]
+		st.G = c.G // the very same adjacency slices: what one call leaves behind is what the next call receives
+		st.obj = obj
+		st.Steps = nil
+		sub := &Line{}
+		sub.I(st.Op)
+		var err error
+		switch st.Op {
+		case 2:
+			_, err = c18RunTrav(&st, sub)
+		case 3:
+			_, err = c18RunSCC(&st, sub)
+		case 4:
+			_, err = c18RunBi(&st, sub)
+		case 5:
+			_, err = c18RunEqual(&st, sub)
+		case 6:
+			_, err = c18RunSimplify(&st, sub)
+		case 7, 8:
+			_, err = c18RunSub(&st, sub)
+		case 10:
+			_, err = c18RunSprint(&st, sub)
+		default:
+			err = fmt.Errorf("operation %d cannot be a step of a history", st.Op)
+		}
+		if err != nil {
+			return nil, err
+		}
+		l.I(len(sub.toks))
+		l.toks = append(l.toks, sub.toks...)
+	}
+	return l, nil
+}
+
 // ---------------------------------------------------------------- op 1: NodeMarks
 func c18RunMarks(c *c18Case, l *Line) (*Line, error) {
+	if len(c.Ops) == 0 {
+		return nil, fmt.Errorf("empty history: nothing would be observed")
+	}
 	for _, op := range c.Ops {
-		if op[0] < 0 || op[0] > 3 || op[1] > c18MaxID || op[1] < -c18MaxID {
+		// Mark/Unmark allocate id/32 words: bounded ids. Test/Next are defined for EVERY int and run as given.
+		if op[0] < 0 || op[0] > 3 || (op[0] <= 1 && op[1] > c18MaxID) {
 			return nil, fmt.Errorf("bad marks op")
 		}
 		if op[0] <= 1 && op[1] < 0 {
@@ -202,6 +273,8 @@ func c18GenMarks(tier string, rng *rand.Rand, emit func(interface{})) {
 		set := map[int]bool{}
 		var marked []int
 		var ops [][2]int
+		probe := it%2 == 0 // the state after EVERY Mark/Unmark is observed: Test of the id, Next around it
+		nprobe := 0        // probe operations do not count towards nops (the random stream is the same with and without them)
 		clamp := func(id int) int {
 			if id < 0 {
 				return 0
@@ -211,7 +284,7 @@ func c18GenMarks(tier string, rng *rand.Rand, emit func(interface{})) {
 			}
 			return id
 		}
-		for len(ops) < nops {
+		for len(ops)-nprobe < nops {
 			id := c18PickID(rng, scale, marked)
 			switch r := rng.Intn(20); {
 			case r < 8:
@@ -221,10 +294,18 @@ func c18GenMarks(tier string, rng *rand.Rand, emit func(interface{})) {
 					set[id] = true
 					marked = append(marked, id)
 				}
+				if probe {
+					ops = append(ops, [2]int{2, id}, [2]int{3, id - 1}, [2]int{3, id})
+					nprobe += 3
+				}
 			case r < 11:
 				id = clamp(id)
 				ops = append(ops, [2]int{1, id})
 				delete(set, id)
+				if probe {
+					ops = append(ops, [2]int{2, id}, [2]int{3, id - 1}, [2]int{3, -1})
+					nprobe += 3
+				}
 			case r < 15:
 				ops = append(ops, [2]int{2, id})
 			case r < 19:
@@ -248,9 +329,6 @@ func c18GenMarks(tier string, rng *rand.Rand, emit func(interface{})) {
 	}
 	// (c) ascending and descending fills across every growth boundary
 	for _, b := range c18Bounds {
-		if !thorough && b > 40000 {
-			continue
-		}
 		var up, down [][2]int
 		for d := -2; d <= 2; d++ {
 			up = append(up, [2]int{0, b + d}, [2]int{2, b + d}, [2]int{3, b + d - 1}, [2]int{3, -1})
@@ -260,6 +338,55 @@ func c18GenMarks(tier string, rng *rand.Rand, emit func(interface{})) {
 		}
 		emit(c18Case{Op: 1, Ops: up})
 		emit(c18Case{Op: 1, Ops: down})
+	}
+	// (d) growth by more than one doubling from a non-empty small set (the old words must survive), then
+	//     Unmark of the far id, a second far Mark, and Unmark beyond the storage of a fresh set
+	for _, a := range []int{0, 31, 992, 1023} {
+		for _, b := range c18Bounds {
+			if b < 2048 {
+				continue
+			}
+			emit(c18Case{Op: 1, Ops: [][2]int{{0, a}, {0, b - 1}, {2, a}, {3, -1}, {3, a}, {2, b - 1}, {3, b - 2}, {3, b - 1},
+				{1, b - 1}, {2, b - 1}, {3, a}, {2, a}, {0, b}, {3, a}, {1, a}, {3, -1}, {2, a}, {1, b}, {3, -1}}})
+		}
+	}
+	for _, b := range c18Bounds {
+		emit(c18Case{Op: 1, Ops: [][2]int{{1, b}, {2, b}, {3, -1}, {3, b - 1}, {0, 5}, {1, b + 31}, {2, 5}, {3, -1}, {3, 5},
+			{0, b}, {1, 2*b + 64}, {2, b}, {3, 5}, {1, b}, {3, 5}, {2, b}}})
+	}
+	// (e) Test/Next are defined for every int: negative and extreme arguments on a non-empty set
+	//     (Next(math.MaxInt) once returned the smallest mark: i++ overflowed; corpus/C18/next-maxint.jsonl)
+	const maxInt = int(^uint(0) >> 1)
+	for _, x := range []int{-1, -2, -31, -32, -33, -63, -64, -65, -1023, -1024, -1025, -(1 << 22), -(1 << 40), -maxInt, -maxInt - 1,
+		1 << 22, 1 << 40, maxInt - 32, maxInt - 1, maxInt} {
+		for _, first := range []int{0, 1, 31, 33, 1023} {
+			emit(c18Case{Op: 1, Ops: [][2]int{{2, x}, {3, x}, {0, first}, {2, x}, {3, x}, {0, 1500}, {2, x}, {3, x}, {1, first}, {3, x}, {2, x}}})
+		}
+	}
+	emit(c18Case{Op: 1, Ops: [][2]int{{0, 7}, {2, maxInt}, {2, -maxInt - 1}, {3, maxInt - 1}, {3, -maxInt - 1}}})
+	// (f) word sweeps: one bit position in EVERY word up to id 4500 (ascending: the storage grows step by step;
+	//     descending: it grows once), each Mark probed at both ends of its word and by the scans around it
+	for _, bit := range []int{0, 31, 17} {
+		for _, desc := range []bool{false, true} {
+			var ops [][2]int
+			for k := 0; k <= 140; k++ {
+				w := k
+				if desc {
+					w = 140 - k
+				}
+				id := 32*w + bit
+				ops = append(ops, [2]int{0, id}, [2]int{2, 32 * w}, [2]int{2, 32*w + 31}, [2]int{2, id}, [2]int{3, 32*w - 1}, [2]int{3, id},
+					[2]int{3, id - 33})
+			}
+			ops = append(ops, [2]int{3, -1})
+			for w := 0; w <= 141; w++ { // the final state, word by word
+				ops = append(ops, [2]int{2, 32*w + bit}, [2]int{2, 32*w + (bit+1)%32}, [2]int{3, 32*w + bit}, [2]int{3, 32*w - 1})
+			}
+			for w := 0; w <= 140; w += 2 { // unmark every other one and scan again
+				ops = append(ops, [2]int{1, 32*w + bit}, [2]int{2, 32*w + bit}, [2]int{3, 32*w - 1})
+			}
+			emit(c18Case{Op: 1, Ops: ops})
+		}
 	}
 }
 
@@ -317,32 +444,39 @@ func c18RunTrav(c *c18Case, l *Line) (*Line, error) {
 	if err := c18ValidGraph(c.G); err != nil {
 		return nil, err
 	}
+	if len(c.Roots) == 0 {
+		return nil, fmt.Errorf("no root: nothing would be observed")
+	}
 	for _, r := range c.Roots {
 		if r < -c18MaxID || r > c18MaxID {
 			return nil, fmt.Errorf("bad root")
 		}
 	}
 	orig := c18Copy(c.G)
-	g := graph.IntGraph(c.G)
+	g := c.graph()
 	l.c18Graph(orig)
 	l.I(len(c.Roots))
 	for _, root := range c.Roots {
-		var pre, post, rev, eul, ent, ext []int
+		var pre, post, rev, rva, eul, ent, ext []int
 		pan, _ := catch(func() {
 			pre = graphalg.PreOrder(g, root)
 			post = graphalg.PostOrder(g, root)
-			rev = graphalg.Reverse(graphalg.PostOrder(g, root))
+			// Reverse "reverses xs in place and returns the slice": the returned slice (rev) and the
+			// argument after the call (rva) are both transported; post comes from a call of its own
+			rva = graphalg.PostOrder(g, root)
+			rev = append([]int{}, graphalg.Reverse(rva)...)
+			graphalg.Euler{}.Visit(g, root) // both callbacks nil: must return without touching anything
 			graphalg.Euler{Enter: func(n int) { eul = append(eul, 2*n) }, Exit: func(n int) { eul = append(eul, 2*n+1) }}.Visit(g, root)
 			graphalg.Euler{Enter: func(n int) { ent = append(ent, 2*n) }}.Visit(g, root)
 			graphalg.Euler{Exit: func(n int) { ext = append(ext, 2*n+1) }}.Visit(g, root)
 		})
 		if pan {
-			l.I(root).I(2).I(0).I(0).I(0).I(0).I(0).I(0)
+			l.I(root).I(2).I(0).I(0).I(0).I(0).I(0).I(0).I(0)
 			continue
 		}
-		l.I(root).I(0).Is(pre).Is(post).Is(rev).Is(eul).Is(ent).Is(ext)
+		l.I(root).I(0).Is(pre).Is(post).Is(rev).Is(rva).Is(eul).Is(ent).Is(ext)
 	}
-	l.B(c18Same(orig, c.G))
+	l.B(c18Same(orig, c.G)).c18Graph(c.G)
 	return l, nil
 }
 
@@ -511,7 +645,12 @@ func c18GenTrav(tier string, rng *rand.Rand, emit func(interface{})) {
 			g := c18MaskGraph(n, mask)
 			emit(c18Case{Op: 2, G: g, Roots: c18AllRoots(n)})
 			if n < 4 || rng.Intn(4) == 0 || thorough {
-				emit(c18Case{Op: 2, G: c18Variant(rng, g), Roots: c18AllRoots(n)})
+				v := c18Variant(rng, g)
+				// quick: one in five of the sampled 4-node variants is left out (the variant is still drawn, so the
+				// random stream is unchanged); the histories of c18GenHist run 1200 such variants from every root
+				if n < 4 || thorough || mask%5 != 0 {
+					emit(c18Case{Op: 2, G: v, Roots: c18AllRoots(n)})
+				}
 			}
 		}
 	}
@@ -590,10 +729,14 @@ func c18RunSCC(c *c18Case, l *Line) (*Line, error) {
 		return nil, fmt.Errorf("bad flags")
 	}
 	orig := c18Copy(c.G)
-	g := graph.IntGraph(c.G)
+	g := c.graph()
 	l.c18Graph(orig).I(c.Flags)
 	var comps, outs [][]int
 	var cof []int
+	hascof := 0 // 1: flags != 0, SubnodeComponent listed; 0: no flag and SubnodeComponent(0) panics; 2: no flag and it returned
+	if c.Flags != 0 {
+		hascof = 1
+	}
 	pan, _ := catch(func() {
 		s := graphalg.SCC(g, graphalg.SCCFlags(c.Flags))
 		nc := s.NumNodes()
@@ -605,6 +748,11 @@ func c18RunSCC(c *c18Case, l *Line) (*Line, error) {
 			for v := 0; v < len(c.G); v++ {
 				cof = append(cof, s.SubnodeComponent(v))
 			}
+		} else if len(c.G) > 0 {
+			// without a flag SubnodeComponent is documented to be unavailable: it panics
+			if p2, _ := catch(func() { s.SubnodeComponent(0) }); !p2 {
+				hascof = 2
+			}
 		}
 	})
 	if pan {
@@ -614,18 +762,14 @@ func c18RunSCC(c *c18Case, l *Line) (*Line, error) {
 		for _, x := range comps {
 			l.Is(x)
 		}
-		if c.Flags != 0 {
-			l.I(1)
-		} else {
-			l.I(0)
-		}
+		l.I(hascof)
 		l.Is(cof)
 		l.I(len(outs))
 		for _, x := range outs {
 			l.Is(x)
 		}
 	}
-	l.B(c18Same(orig, c.G))
+	l.B(c18Same(orig, c.G)).c18Graph(c.G)
 	return l, nil
 }
 
@@ -633,8 +777,11 @@ func c18GenSCC(tier string, rng *rand.Rand, emit func(interface{})) {
 	thorough := tier == "thorough"
 	k := 0
 	flags := func() int { k++; return []int{3, 3, 2, 3, 1, 3, 0, 3}[k%8] }
-	emit(c18Case{Op: 3, G: [][]int{}, Flags: 3})
-	emit(c18Case{Op: 3, G: [][]int{}, Flags: 0})
+	for f := 0; f <= 3; f++ {
+		emit(c18Case{Op: 3, G: [][]int{}, Flags: f})
+		emit(c18Case{Op: 3, G: [][]int{{}}, Flags: f})
+		emit(c18Case{Op: 3, G: [][]int{{0, 0}}, Flags: f})
+	}
 	for n := 1; n <= 4; n++ {
 		for mask := uint64(0); mask < 1<<uint(n*n); mask++ {
 			g := c18MaskGraph(n, mask)
@@ -694,28 +841,22 @@ func c18RunBi(c *c18Case, l *Line) (*Line, error) {
 		return nil, err
 	}
 	orig := c18Copy(c.G)
-	g := graph.IntGraph(c.G)
+	g := c.graph()
 	l.c18Graph(orig)
-	var ins [][]int
-	outsame, idem := true, true
+	var ins, bout [][]int
+	idem := true
 	pan, _ := catch(func() {
 		b := graph.MakeBiGraph(g)
-		if b.NumNodes() != len(orig) {
-			outsame = false
+		// the result's own NumNodes / Out are transported (bout); In is asked for every node of the argument
+		nb := b.NumNodes()
+		bout = [][]int{}
+		for j := 0; j < nb; j++ {
+			bout = append(bout, append([]int{}, b.Out(j)...))
 		}
 		for j := 0; j < len(orig); j++ {
 			ins = append(ins, append([]int{}, b.In(j)...))
-			o := b.Out(j)
-			if len(o) != len(orig[j]) {
-				outsame = false
-				continue
-			}
-			for k := range o {
-				if o[k] != orig[j][k] {
-					outsame = false
-				}
-			}
 		}
+		// "If g is already a BiGraph, this returns g": interface identity, a Go-level predicate
 		if graph.MakeBiGraph(b) != b {
 			idem = false
 		}
@@ -727,9 +868,9 @@ func c18RunBi(c *c18Case, l *Line) (*Line, error) {
 		for _, x := range ins {
 			l.Is(x)
 		}
-		l.B(outsame).B(idem)
+		l.c18Graph(bout).B(idem)
 	}
-	l.B(c18Same(orig, c.G))
+	l.B(c18Same(orig, c.G)).c18Graph(c.G)
 	return l, nil
 }
 
@@ -743,14 +884,17 @@ func c18RunEqual(c *c18Case, l *Line) (*Line, error) {
 	}
 	o1, o2 := c18Copy(c.G), c18Copy(c.G2)
 	l.c18Graph(o1).c18Graph(o2)
-	res := false
-	pan, _ := catch(func() { res = graph.Equal(graph.IntGraph(c.G), graph.IntGraph(c.G2)) })
+	res, res21 := false, false
+	pan, _ := catch(func() {
+		res = graph.Equal(c.graph(), graph.IntGraph(c.G2))
+		res21 = graph.Equal(graph.IntGraph(c.G2), c.graph())
+	})
 	if pan {
-		l.I(2).I(0)
+		l.I(2).I(0).I(0)
 	} else {
-		l.I(0).B(res)
+		l.I(0).B(res).B(res21)
 	}
-	l.B(c18Same(o1, c.G) && c18Same(o2, c.G2))
+	l.B(c18Same(o1, c.G) && c18Same(o2, c.G2)).c18Graph(c.G).c18Graph(c.G2)
 	return l, nil
 }
 
@@ -798,7 +942,7 @@ func c18RunSimplify(c *c18Case, l *Line) (*Line, error) {
 	var rg [][]int
 	var rw [][]float64
 	pan, _ := catch(func() {
-		var in graph.Graph = graph.IntGraph(c.G)
+		in := c.graph()
 		if weighted {
 			in = c18Weighted{graph.IntGraph(c.G), w}
 		}
@@ -831,7 +975,7 @@ func c18RunSimplify(c *c18Case, l *Line) (*Line, error) {
 			}
 		}
 	}
-	l.B(pure)
+	l.B(pure).c18Graph(c.G)
 	return l, nil
 }
 
@@ -870,9 +1014,9 @@ func c18RunSub(c *c18Case, l *Line) (*Line, error) {
 	pan, _ := catch(func() {
 		var s graph.Subgraph
 		if c.Op == 7 {
-			s = graph.SubgraphKeep(graph.IntGraph(c.G), nodes, edges)
+			s = graph.SubgraphKeep(c.graph(), nodes, edges)
 		} else {
-			s = graph.SubgraphRemove(graph.IntGraph(c.G), nodes, edges)
+			s = graph.SubgraphRemove(c.graph(), nodes, edges)
 		}
 		nm := s.NodeMap(func(node int) interface{} { return node })
 		em := s.EdgeMap(func(node, edge int) interface{} { return [2]int{node, edge} })
@@ -904,7 +1048,11 @@ func c18RunSub(c *c18Case, l *Line) (*Line, error) {
 			pure = false
 		}
 	}
-	l.B(pure)
+	// the arguments after the call: graph, node list, edge list
+	l.B(pure).c18Graph(c.G).Is(nodes).I(2 * len(edges))
+	for _, e := range edges {
+		l.I(e.Node).I(e.Edge)
+	}
 	return l, nil
 }
 
@@ -1401,7 +1549,7 @@ func c18RunSprint(c *c18Case, l *Line) (*Line, error) {
 		l.I(0)
 	}
 	var out string
-	pan, _ := catch(func() { out = d.Sprint(graph.IntGraph(c.G)) })
+	pan, _ := catch(func() { out = d.Sprint(c.graph()) })
 	if pan {
 		l.I(2).I(0)
 	} else {
@@ -1421,7 +1569,7 @@ func c18RunSprint(c *c18Case, l *Line) (*Line, error) {
 			chk(etab[i][j], c.EAttrs[i][j])
 		}
 	}
-	l.B(pure)
+	l.B(pure).c18Graph(c.G)
 	return l, nil
 }
 
@@ -1479,10 +1627,13 @@ func c18GenDot(tier string, rng *rand.Rand, emit func(interface{})) {
 	for _, nm := range []string{"label", "color", "shape", "x", "Label", "labe", "labels"} {
 		names = append(names, toInts(nm))
 	}
+	wide := false // second block: attribute names with bytes DotString would escape (names are written raw), up to 7 attributes
 	randAttrs := func(bad bool) []c18Attr {
 		k := rng.Intn(4)
 		if rng.Intn(3) == 0 {
 			k = 0
+		} else if wide && rng.Intn(4) == 0 {
+			k = 4 + rng.Intn(4)
 		}
 		as := make([]c18Attr, k)
 		for i := range as {
@@ -1512,7 +1663,14 @@ func c18GenDot(tier string, rng *rand.Rand, emit func(interface{})) {
 	if thorough {
 		nDot = 40000
 	}
-	for k := 0; k < nDot; k++ {
+	nWide := nDot / 10
+	for k := 0; k < nDot+nWide; k++ {
+		if k == nDot {
+			wide = true
+			for _, nm := range []string{"LABEL", "", "a b", "q\"q", "b\\s", "n\nl", "\xc3\xa9", "{r}", "label ", "label"} {
+				names = append(names, toInts(nm))
+			}
+		}
 		var g [][]int
 		switch {
 		case k < 600:
@@ -1522,7 +1680,15 @@ func c18GenDot(tier string, rng *rand.Rand, emit func(interface{})) {
 				g = c18Variant(rng, g)
 			}
 		case k%50 == 0:
-			g = c18Structured(rng, rng.Intn(6), []int{9, 10, 11, 99, 101, 1001}[rng.Intn(6)], rng.Intn(3))
+			kind := rng.Intn(6)
+			sz := []int{9, 10, 11, 99, 101, 1001}[rng.Intn(6)]
+			if wide && sz > 101 { // the model's printer is quadratic in the output: no further 1001-node graphs
+				sz = 101
+			}
+			if !thorough && sz > 301 { // quick: 301 nodes (a tenth of the comparator time of 1001)
+				sz = 301
+			}
+			g = c18Structured(rng, kind, sz, rng.Intn(3))
 		default:
 			g = c18RandGraph(rng, 1+rng.Intn(12))
 		}
@@ -1559,12 +1725,410 @@ func c18GenDot(tier string, rng *rand.Rand, emit func(interface{})) {
 	}
 }
 
+// fan: a spine 0 -> 1 -> ... -> n/2-1 whose nodes each point (twice or more) into the leaves n/2..n-1, so that
+// every leaf id is reached again after it has been visited; relabel as in c18Structured
+func c18Fan(rng *rand.Rand, n, relabel int) [][]int {
+	perm := make([]int, n)
+	for i := range perm {
+		perm[i] = i
+		if relabel == 1 {
+			perm[i] = n - 1 - i
+		}
+	}
+	if relabel == 2 {
+		rng.Shuffle(n, func(x, y int) { perm[x], perm[y] = perm[y], perm[x] })
+	}
+	g := make([][]int, n)
+	for i := range g {
+		g[i] = []int{}
+	}
+	h := n / 2
+	for i := 0; i < h; i++ {
+		for k := 2 + rng.Intn(3); k > 0; k-- {
+			g[perm[i]] = append(g[perm[i]], perm[h+rng.Intn(n-h)])
+		}
+		g[perm[i]] = append(g[perm[i]], perm[h+(2*i)%(n-h)], perm[h+(2*i+1)%(n-h)]) // every leaf is hit by the spine
+		if i+1 < h {
+			g[perm[i]] = append(g[perm[i]], perm[i+1])
+		}
+	}
+	return g
+}
+
+func c18GenExtra(tier string, rng *rand.Rand, emit func(interface{})) {
+	fanSizes := []int{1100, 4097, 5000}
+	if tier == "thorough" {
+		fanSizes = append(fanSizes, 32769, 100000)
+	}
+	// DotString / labels far longer than the 40 bytes of c18GenDot: 300 and 5000 bytes, special bytes throughout
+	for it := 0; it < 12; it++ {
+		k := []int{300, 5000}[it%2]
+		str := make([]int, k)
+		for i := range str {
+			switch rng.Intn(4) {
+			case 0:
+				str[i] = []int{'\\', '"', '\n', '{', '}', '<', '>', '|', '\r', 0, 255, 128}[rng.Intn(12)]
+			case 1:
+				str[i] = rng.Intn(256)
+			default:
+				str[i] = 32 + rng.Intn(95)
+			}
+		}
+		emit(c18Case{Op: 9, S: str})
+		if it < 4 {
+			emit(c18Case{Op: 10, G: [][]int{{1, 1}, {0}}, Name: str[:100], HasL: true, Labels: [][]int{str, str[:k/2]}})
+		}
+	}
+	for _, n := range fanSizes {
+		for relabel := 0; relabel < 3; relabel++ {
+			g := c18Fan(rng, n, relabel)
+			root := 0
+			if relabel == 1 {
+				root = n - 1
+			} else if relabel == 2 {
+				for len(g[root]) == 0 || rng.Intn(4) > 0 {
+					root = rng.Intn(n)
+				}
+			}
+			emit(c18Case{Op: 2, G: g, Roots: []int{root}})
+			emit(c18Case{Op: 3, G: g, Flags: 3})
+		}
+	}
+	// Equal / SimplifyMulti / SubgraphKeep / SubgraphRemove on structured graphs whose node ids go well beyond 1024
+	// (c18GenGraphOps stops at 1025 nodes for these four)
+	for _, n := range []int{1100, 2049, 5000} {
+		for kind := 0; kind < 6; kind++ {
+			g := c18Structured(rng, kind, n, rng.Intn(3))
+			// Equal: a change in a late node / identical / reshuffled
+			h := c18Copy(g)
+			switch kind % 3 {
+			case 0:
+				i := n - 1 - rng.Intn(n/2)
+				h[i] = append(h[i], rng.Intn(n))
+			case 1:
+				h = c18Variant(rng, h)
+				for i := range h {
+					if len(h[i]) != len(g[i]) {
+						h[i] = append([]int{}, g[i]...)
+						a := h[i]
+						rng.Shuffle(len(a), func(x, y int) { a[x], a[y] = a[y], a[x] })
+					}
+				}
+			}
+			emit(c18Case{Op: 5, G: g, G2: h})
+			// SimplifyMulti with doubled edges
+			emit(c18Case{Op: 6, G: c18Variant(rng, g)})
+			// Keep: a random half of the nodes in shuffled order with most induced edges; Remove: a tenth of the nodes, a fifth of the edges
+			v := c18Variant(rng, g)
+			var nodes []int
+			in := map[int]bool{}
+			for i := 0; i < n; i++ {
+				if rng.Intn(2) == 0 {
+					nodes = append(nodes, i)
+					in[i] = true
+				}
+			}
+			rng.Shuffle(len(nodes), func(x, y int) { nodes[x], nodes[y] = nodes[y], nodes[x] })
+			es := [][2]int{}
+			rme := [][2]int{}
+			for i := range v {
+				for j, t := range v[i] {
+					if in[i] && in[t] && rng.Intn(4) > 0 {
+						es = append(es, [2]int{i, j})
+					}
+					if rng.Intn(5) == 0 {
+						rme = append(rme, [2]int{i, j})
+					}
+				}
+			}
+			rng.Shuffle(len(es), func(x, y int) { es[x], es[y] = es[y], es[x] })
+			emit(c18Case{Op: 7, G: v, Nodes: nodes, Edges: es})
+			rm := []int{}
+			for i := 0; i < n; i++ {
+				if rng.Intn(10) == 0 {
+					rm = append(rm, i)
+				}
+			}
+			rng.Shuffle(len(rm), func(x, y int) { rm[x], rm[y] = rm[y], rm[x] })
+			emit(c18Case{Op: 8, G: v, Nodes: rm, Edges: rme})
+		}
+	}
+	rounds := 1
+	if tier == "thorough" {
+		rounds = 10
+	}
+	for round := 0; round < rounds; round++ {
+		// hubs: a few components with very many out-edges into many other components, with repeats
+		// (the component-edge lists are long and unsorted before the dedup)
+		for it := 0; it < 12; it++ {
+			n := 150 + rng.Intn(200)
+			g := make([][]int, n)
+			for i := range g {
+				g[i] = []int{}
+			}
+			for h := 0; h < 3; h++ { // hub h: a 2-cycle {2h, 2h+1} with 100..300 edges to later nodes
+				g[2*h] = append(g[2*h], 2*h+1)
+				g[2*h+1] = append(g[2*h+1], 2*h)
+				for k := 100 + rng.Intn(200); k > 0; k-- {
+					g[2*h+rng.Intn(2)] = append(g[2*h+rng.Intn(2)], 6+rng.Intn(n-6))
+				}
+			}
+			for i := 6; i < n; i++ { // the rest: a sparse DAG on later ids with some 2-cycles
+				for k := rng.Intn(3); k > 0 && i+1 < n; k-- {
+					g[i] = append(g[i], i+1+rng.Intn(n-i-1))
+				}
+				if i+1 < n && rng.Intn(6) == 0 {
+					g[i] = append(g[i], i+1)
+					g[i+1] = append(g[i+1], i)
+				}
+			}
+			emit(c18Case{Op: 3, G: g, Flags: []int{3, 2, 3, 3}[it%4]})
+		}
+		// SimplifyMulti with weights that need more than 24 significant bits: up to 2^29 with 10 fractional bits,
+		// sums of a few dozen stay exact in float64 (but not in float32)
+		for it := 0; it < 60; it++ {
+			n := 1 + rng.Intn(12)
+			g := c18RandGraph(rng, n)
+			w := make([][]F64, n)
+			for i := range g {
+				for r := rng.Intn(4); r > 0 && len(g[i]) > 0 && len(g[i]) < 40; r-- {
+					g[i] = append(g[i], g[i][rng.Intn(len(g[i]))])
+				}
+				w[i] = make([]F64, len(g[i]))
+				for j := range w[i] {
+					w[i][j] = F64(float64(rng.Intn(1<<29)-(1<<28)) + float64(rng.Intn(1024))/1024)
+				}
+			}
+			emit(c18Case{Op: 6, G: g, W: w})
+		}
+		// Equal on long adjacency lists (beyond sort's small-slice path) that differ in ONE late entry of the sorted order
+		for it := 0; it < 40; it++ {
+			n := 20 + rng.Intn(30)
+			g := make([][]int, 3)
+			for i := range g {
+				g[i] = []int{}
+				for k := 13 + rng.Intn(40); k > 0; k-- {
+					g[i] = append(g[i], rng.Intn(n))
+				}
+			}
+			for len(g) < n {
+				g = append(g, []int{})
+			}
+			h := c18Copy(g)
+			for i := range h {
+				a := h[i]
+				rng.Shuffle(len(a), func(x, y int) { a[x], a[y] = a[y], a[x] })
+			}
+			if it%4 != 0 { // raise one of the largest entries of one list: the sorted lists differ only near the end
+				i := rng.Intn(3)
+				big := 0
+				for k, v := range h[i] {
+					if v >= h[i][big] {
+						big = k
+					}
+				}
+				if h[i][big] < n-1 {
+					h[i][big]++
+				}
+			}
+			emit(c18Case{Op: 5, G: g, G2: h})
+		}
+		// SubgraphRemove / Keep around nodes with many out-edges and named removals of most of them
+		for it := 0; it < 40; it++ {
+			n := 5 + rng.Intn(20)
+			g := c18RandGraph(rng, n)
+			u := rng.Intn(n)
+			for k := 17 + rng.Intn(30); k > 0; k-- {
+				g[u] = append(g[u], rng.Intn(n))
+			}
+			rme := [][2]int{}
+			for j := range g[u] {
+				if rng.Intn(3) > 0 {
+					rme = append(rme, [2]int{u, j})
+				}
+			}
+			rm := []int{}
+			if v := rng.Intn(n); v != u && rng.Intn(2) == 0 {
+				rm = append(rm, v)
+			}
+			emit(c18Case{Op: 8, G: g, Nodes: rm, Edges: rme})
+		}
+	}
+}
+
+// ---------------------------------------------------------------- op 11: histories on one graph object
+// every algorithm in turn on the SAME object, the traversals again after each of them: a call that returns the right
+// answer but leaves the adjacency lists changed (sorted, filtered or compacted in place) is seen by the argument
+// comparison of that step and by the results of the later steps
+func c18HistCase(rng *rand.Rand, g [][]int, bi bool, small bool) c18Case {
+	n := len(g)
+	roots := func() []int {
+		if n == 0 {
+			return []int{0}
+		}
+		var r []int
+		if n <= 4 {
+			r = c18AllRoots(n)
+		} else if n > 1000 {
+			r = c18Roots(rng, n, 1)
+		} else {
+			r = c18Roots(rng, n, 3)
+		}
+		return append(r, r[0]) // the first root once more
+	}
+	trav := func() c18Case { return c18Case{Op: 2, Roots: roots()} }
+	keep := func() c18Case {
+		in := map[int]bool{}
+		nodes := []int{}
+		for i := 0; i < n; i++ {
+			if rng.Intn(3) > 0 {
+				nodes = append(nodes, i)
+				in[i] = true
+			}
+		}
+		rng.Shuffle(len(nodes), func(x, y int) { nodes[x], nodes[y] = nodes[y], nodes[x] })
+		es := [][2]int{}
+		for i := range g {
+			for j, t := range g[i] {
+				if in[i] && in[t] && rng.Intn(4) > 0 {
+					es = append(es, [2]int{i, j})
+				}
+			}
+		}
+		rng.Shuffle(len(es), func(x, y int) { es[x], es[y] = es[y], es[x] })
+		return c18Case{Op: 7, Nodes: nodes, Edges: es}
+	}
+	remove := func() c18Case {
+		rm := []int{}
+		rme := [][2]int{}
+		for i := range g {
+			if rng.Intn(5) == 0 {
+				rm = append(rm, i)
+			}
+			for j := range g[i] {
+				if rng.Intn(4) == 0 {
+					rme = append(rme, [2]int{i, j})
+				}
+			}
+		}
+		rng.Shuffle(len(rm), func(x, y int) { rm[x], rm[y] = rm[y], rm[x] })
+		return c18Case{Op: 8, Nodes: rm, Edges: rme}
+	}
+	equal := func() c18Case {
+		h := c18Copy(g)
+		for i := range h {
+			a := h[i]
+			rng.Shuffle(len(a), func(x, y int) { a[x], a[y] = a[y], a[x] }) // not identical: Equal has to sort
+		}
+		if n > 0 && rng.Intn(3) == 0 {
+			i := rng.Intn(n)
+			h[i] = append(h[i], rng.Intn(n))
+		}
+		return c18Case{Op: 5, G2: h}
+	}
+	steps := []c18Case{trav(), {Op: 3, Flags: 3}, trav()}
+	mid := []c18Case{keep(), remove(), {Op: 3, Flags: rng.Intn(3)}, {Op: 4}, equal(), {Op: 6}}
+	if n > 1000 { // large graph: few steps (every step prints the graph before and after the call)
+		mid = []c18Case{[]c18Case{keep(), remove(), equal(), {Op: 6}}[rng.Intn(4)]}
+	}
+	if small {
+		d := c18Case{Op: 10}
+		if rng.Intn(2) == 0 {
+			d.HasL = true
+			d.Labels = make([][]int, n)
+			for i := range d.Labels {
+				d.Labels[i] = []int{'v', '0' + i%10}
+			}
+		}
+		mid = append(mid, d)
+	}
+	rng.Shuffle(len(mid), func(x, y int) { mid[x], mid[y] = mid[y], mid[x] })
+	for k, m := range mid {
+		steps = append(steps, m)
+		if bi && m.Op != 4 {
+			steps = append(steps, c18Case{Op: 4}) // In of the BiGraph object after the call
+		}
+		if k%2 == 1 || (!small && n <= 1000) {
+			steps = append(steps, trav())
+		}
+	}
+	if n > 1000 {
+		steps = steps[2:] // trav, one of Keep/Remove/Equal/SimplifyMulti (+ In), then SCC and trav again
+	}
+	steps = append(steps, c18Case{Op: 3, Flags: 3}, trav())
+	return c18Case{Op: 11, G: g, Bi: bi, Steps: steps}
+}
+
+func c18GenHist(tier string, rng *rand.Rand, emit func(interface{})) {
+	scale := 1
+	if tier == "thorough" {
+		scale = 12
+	}
+	k := 0
+	bi := func() bool { k++; return k%3 == 0 }
+	for n := 0; n <= 3; n++ {
+		for mask := uint64(0); mask < 1<<uint(n*n); mask++ {
+			g := c18MaskGraph(n, mask)
+			if mask%2 == 1 {
+				g = c18Variant(rng, g)
+			}
+			emit(c18HistCase(rng, g, bi(), true))
+		}
+	}
+	for it := 0; it < 1200*scale; it++ {
+		g := c18MaskGraph(4, uint64(rng.Intn(1<<16)))
+		if it%2 == 0 {
+			g = c18Variant(rng, g)
+		}
+		emit(c18HistCase(rng, g, bi(), true))
+	}
+	for it := 0; it < 400*scale; it++ {
+		n := 1 + rng.Intn(60)
+		if rng.Intn(3) == 0 {
+			n = 1 + rng.Intn(9)
+		}
+		emit(c18HistCase(rng, c18RandGraph(rng, n), bi(), n <= 12))
+	}
+	for i, n := range []int{1100, 2049, 4200} {
+		for kind := 0; kind < 7; kind++ {
+			if scale == 1 && kind != []int{3, 5, 6}[i] { // quick: one large history per growth boundary (DAG layers, tree with back edges, fan)
+				continue
+			}
+			var g [][]int
+			if kind < 6 {
+				g = c18Structured(rng, kind, n, rng.Intn(3))
+			} else {
+				g = c18Fan(rng, n, rng.Intn(3))
+			}
+			emit(c18HistCase(rng, c18Variant(rng, g), bi(), false))
+		}
+	}
+}
+
 func c18Gen(tier string, rng *rand.Rand, emit func(interface{})) {
+	// debugging aid for mutation experiments only: VERIF_C18_OPS=1,6 runs just the cases of the listed operations
+	// (every case is still generated, so the random stream and the selected cases are those of the full run)
+	if f := os.Getenv("VERIF_C18_OPS"); f != "" {
+		sel := map[int]bool{}
+		for _, t := range strings.Split(f, ",") {
+			if v, err := strconv.Atoi(strings.TrimSpace(t)); err == nil {
+				sel[v] = true
+			}
+		}
+		inner := emit
+		emit = func(c interface{}) {
+			if cc, ok := c.(c18Case); ok && sel[cc.Op] {
+				inner(c)
+			}
+		}
+	}
 	c18GenMarks(tier, rng, emit)
 	c18GenTrav(tier, rng, emit)
 	c18GenSCC(tier, rng, emit)
 	c18GenGraphOps(tier, rng, emit)
 	c18GenDot(tier, rng, emit)
+	c18GenExtra(tier, rng, emit)
+	c18GenHist(tier, rng, emit)
 }
 
 func init() { register(&Prop{ID: "C18", Num: 18, Gen: c18Gen, Run: c18Run}) }
